@@ -47,6 +47,11 @@ def run(repo, rep, tier):
                     return (unparse(e.func.value), e.func.attr)
                 return None
             rl, rr = red(l), red(r)
+            opn = type(t.ops[0])
+            if rl is not None and rr is not None and rl[0] != dirp and rr[0] == dirp:
+                # orientation: the TARGET grid's extreme on the left
+                rl, rr = rr, rl
+                opn = {ast.Lt: ast.Gt, ast.LtE: ast.GtE, ast.Gt: ast.Lt, ast.GtE: ast.LtE}[opn]
             isels = [x for x in ast.walk(n) if isinstance(x, ast.Call) and isinstance(x.func, ast.Attribute) and x.func.attr == "isel"
                      and any(k.arg == D for k in x.keywords)]
             if not isels:
@@ -67,8 +72,8 @@ def run(repo, rep, tier):
                         isinstance(a.value.elts[1], ast.Name) for a in ast.walk(n))
             back = any(isinstance(c, ast.Call) and isinstance(c.func, ast.Attribute) and c.func.attr == "append" for c in ast.walk(n))
             sense = (rl[1], type(t.ops[0]).__name__, rr[1], rl[0] == dirp, rr[0].endswith(f".{D}") or rr[0].endswith(f"[{D!r}]"))
-            below = rl[1] == "min" and isinstance(t.ops[0], ast.Lt) and rr[1] == "min"
-            above = rl[1] == "max" and isinstance(t.ops[0], ast.Gt) and rr[1] == "max"
+            below = rl[1] == "min" and opn is ast.Lt and rr[1] == "min"
+            above = rl[1] == "max" and opn is ast.Gt and rr[1] == "max"
             legal = (below and idx == -1 and shift == -360 and front and not back) or (above and idx == 0 and shift == 360 and back)
             pads.append(n)
             if legal and rl[0] == dirp:
@@ -129,8 +134,9 @@ def run(repo, rep, tier):
         a = anchor[0]
         z = [b for b in a.body if isinstance(b, ast.Assign) and _is_zero_copy(b.value)][0].targets[0].id
         t = a.test
-        guard_ok = isinstance(t, ast.Compare) and isinstance(t.ops[0], ast.Lt) and unparse(t.left).replace(" ", "") == f"{freq}.min()" and \
-            unparse(t.comparators[0]).replace(" ", "") in (f"{OUT}.{F}.min()", f"{OUT}['{F}'].min()")
+        from ..astutil import rel as _rel
+        g_ = _rel(t, lambda e: unparse(e).replace(" ", "") == f"{freq}.min()")
+        guard_ok = g_ is not None and g_[1] == "<" and unparse(g_[2]).replace(" ", "") in (f"{OUT}.{F}.min()", f"{OUT}['{F}'].min()")
         relabel = any(isinstance(b, ast.Assign) and isinstance(b.targets[0], ast.Subscript) and unparse(b.targets[0].value) == z and
                       repo.const(fi.module, b.targets[0].slice) == F and repo.const(fi.module, b.value) == 0 for b in a.body)
         front = any(isinstance(b, ast.Assign) and isinstance(b.value, ast.Call) and call_name(b.value) in ("xr.concat", "xarray.concat") and b.value.args and
